@@ -309,3 +309,33 @@ func vInstallHooks() *vHookCounts {
 	OnUnhandledError = func(ctx context.Context, err error) { h.unhandled++; h.lastUnh = err }
 	return h
 }
+
+// ---------------------------------------------------------------------------
+// fault plan: the idx-th invocation of the user callback named pos panics with
+// an error value (kind 0) or an arbitrary value (kind 1).
+
+type vFaultPlan struct {
+	pos    string
+	idx    int
+	kind   int
+	counts map[string]int
+	fired  int
+}
+
+var vFault *vFaultPlan
+
+func vFP(pos string) {
+	f := vFault
+	if f == nil {
+		return
+	}
+	n := f.counts[pos]
+	f.counts[pos] = n + 1
+	if f.pos == pos && f.idx == n {
+		f.fired++
+		if f.kind == 0 {
+			panic(vErrB)
+		}
+		panic("verif: arbitrary panic value")
+	}
+}
